@@ -159,11 +159,11 @@ def run_shard(ctx):
         for gd in gg.all_admgs(4):
             idx += 1
             if idx % 40 == 0 and ctx.mine(idx // 40):
-                run_case(ctx, gd, rng.choice([None, 1, 2]), rng.choice(["default", "len_lex"]), rng.random() < 0.3)
-    for i in range(ctx.share({"quick": 400, "thorough": 12000}[ctx.tier])):
+                run_case(ctx, gd, rng.choice([None, 0, 0, 1, 2]), rng.choice(["default", "len_lex"]), rng.random() < 0.3)
+    for i in range(ctx.share({"quick": 1200, "thorough": 12000}[ctx.tier])):
         n = rng.choice([5, 5, 6])
         gd = gg.random_admg(rng, n, p_di=rng.choice([0.2, 0.35, 0.5]), p_bi=rng.choice([0.1, 0.2, 0.35]))
-        k = rng.choice([None, 0, 1, 2, 3, 4])
+        k = rng.choice([None, 0, 0, 1, 2, 3, 4])
         pol = rng.choice(["default", "len_lex"])
         run_case(ctx, gd, k, pol, rng.random() < 0.3)
         if i % 4 == 0:
